@@ -37,6 +37,12 @@ CORPUS = [
 
 def gen_cases(tier, seed):
     cases = []
+    # ignored edge that one walk must traverse twice (its own value says 9 / 0)
+    for garbage in (9, 0, 1):
+        base = {"nodes": ["a", "c", "d", "b"], "edges": [("a", "c"), ("c", "d"), ("d", "c"), ("d", "b")], "flow": {("a", "c"): 1, ("c", "d"): garbage, ("d", "c"): 1, ("d", "b"): 1},
+                "planted": [], "wt": "int", "mode": "edge"}
+        for oo in (None, OPTS[2]):
+            cases.append({"kind": "opt", "spec": I.spec_of(base), "mode": "edge", "cons": [], "cov": 1.0, "ignore": [["c", "d"]], "oo": oo, "starts": [], "ends": []})
     for i, (nodes, edges, fl) in enumerate(CORPUS):
         base = {"nodes": nodes, "edges": edges, "flow": fl, "planted": [], "wt": "int", "mode": "edge"}
         for oo in (None, OPTS[2], OPTS[5]):
